@@ -112,8 +112,20 @@ def write_coqproject():
     return False
 
 
-def coq_build(timeout=1500, log=None):
-    """Incremental full (.vo) build of the whole development.
+def prop_targets(prop):
+    """The .vo files a property's check depends on: its Props file and every
+    Proofs/Bridge file carrying its id (make resolves their dependencies)."""
+    t = []
+    for sub, pat in (("Props", prop + ".v"), ("Proofs", prop + "*.v"),
+                     ("Bridge", prop + "*.v")):
+        for f in sorted(glob.glob(os.path.join(COQ, sub, pat))):
+            t.append(os.path.relpath(f, COQ) + "o")
+    return t
+
+
+def coq_build(prop=None, timeout=900, log=None):
+    """Incremental full (.vo) build: of the files property `prop` depends on,
+    or of the whole development when prop is None (setup).
 
     Returns (ok, output). Serialised across concurrently running checks."""
     lock = open(os.path.join(COQ, ".build.lock"), "w")
@@ -124,11 +136,13 @@ def coq_build(timeout=1500, log=None):
             subprocess.run(["coq_makefile", "-f", "_CoqProject", "-o",
                             "Makefile"], cwd=COQ, check=True,
                            capture_output=True)
+        targets = prop_targets(prop) if prop else []
         try:
-            r = subprocess.run(["make", "-k", "-j%d" % NCPU], cwd=COQ,
-                               capture_output=True, text=True,
+            r = subprocess.run(["make", "-k", "-j%d" % NCPU] + targets,
+                               cwd=COQ, capture_output=True, text=True,
                                timeout=timeout)
         except subprocess.TimeoutExpired as e:
+            subprocess.run(["pkill", "-f", "coqc.*-Q \\. Verif"], cwd=COQ)
             return False, "make timed out after %ss\n%s" % (timeout, e.stdout)
         out = r.stdout + r.stderr
         return r.returncode == 0, out
